@@ -227,7 +227,14 @@ theorem batch_only_shrinks_outside_poll (ms : List Move) (inp : PollIn) (o : Out
 /-- the registration of every client of every reachable state is (read unless suspended) + (write iff backlog) -/
 theorem client_interest (ms : List Move) (i : Id) (c : ClientS) (reg : Flags)
     (hc : (reach ms).clients i = some c) (hl : lookup (reach ms).sockets i = some reg) :
-    reg = clientFlags c.suspended c.backlog := invF_reach ms i c reg hc hl
+    reg = clientFlags c.suspended c.backlog := by
+  have hk := registered_kind ms i reg hl
+  have hne : (reach ms).clients i ≠ none := by rw [hc]; simp
+  obtain ⟨hl1, he1⟩ := ((inv_reach ms).u.disj i).2.1 hne
+  rcases hk with ⟨_, _, ha, hcf⟩ | ⟨l, hl', _⟩ | ⟨e, he', _⟩
+  · exact invF_reach ms i c reg hc hl ha hcf
+  · rw [hl1] at hl'; simp at hl'
+  · rw [he1] at he'; simp at he'
 
 /-- a suspended client gets no onRead — also when its read event was already buffered in the poll when
     it was suspended (by another client's callback), and whatever the kernel reports -/
